@@ -411,6 +411,13 @@ func (c *chessCtx) node(o *Obs) {
 		c.disc("C16", "legal-fen-rejected", "fen-setup", o, nodeFen, e)
 		return
 	}
+	if c.props["C16"] {
+		// every legal position's FEN round-trips exactly
+		c.res.count("C16.legal_fens", 1)
+		if got := pFen.StringFen(); got != nodeFen {
+			c.disc("C16", "legal-fen-roundtrip", "fen/legal-roundtrip", o, nodeFen, map[string]string{"output": got})
+		}
+	}
 	pPath, perr := c.replay(o, c.props["C03"])
 	if perr != "" {
 		for pr := range c.props {
